@@ -14,6 +14,7 @@ Local Open Scope Z_scope.
 Inductive contk : Type := KRead | KApp (id : Z).       (* what a flush completion continues: the read, or a user callback *)
 
 Record wa : Type := mkwa {
+  a_state : Z;                           (* 1 active, 2 closed by us (the numbering of StreamState) *)
   a_next : list (Z * (Z * list Z));     (* user handler table: when the callback of write id runs it starts write (id', payload) *)
   a_serial : bool;
   a_pending : list (list Z);             (* pendingFrames, as wire bytes *)
@@ -37,7 +38,7 @@ Record wa : Type := mkwa {
 }.
 
 Definition wa_init (serial : bool) : wa :=
-  mkwa [] serial [] [] None None false [] None false [] [] [] [] [] [] [] [] false.
+  mkwa 1 [] serial [] [] None None false [] None false [] [] [] [] [] [] [] [] false.
 
 (* client frames: masking is C16's subject; here a frame is opcode, length, payload *)
 Definition enc_frame (opcode : Z) (payload : list Z) : list Z :=
@@ -45,7 +46,7 @@ Definition enc_frame (opcode : Z) (payload : list Z) : list Z :=
   else (128 + opcode) :: 126 :: (zlen payload / 256) :: (zlen payload mod 256) :: payload.
 
 Definition upd_log (s : wa) (e : Z * Z * list Z) : wa :=
-  mkwa (a_next s) (a_serial s) (a_pending s) (a_dst s) (a_wr s) (a_chain s) (a_flushing s) (a_waiters s) (a_rd s) (a_rwait s) (a_inq s)
+  mkwa (a_state s) (a_next s) (a_serial s) (a_pending s) (a_dst s) (a_wr s) (a_chain s) (a_flushing s) (a_waiters s) (a_rd s) (a_rwait s) (a_inq s)
     (a_src s) (a_wire s) (e :: a_log s) (a_done s) (a_all s) (a_fstart s) (a_fdone s) (a_fuel_out s).
 
 (* AsyncWriteNext of the head of pendingFrames: encode into dst, (re)initialise the adapter's write reactor *)
@@ -53,37 +54,37 @@ Definition send_head (s : wa) (k : option contk) : wa :=
   match a_pending s with
   | [] => s
   | f :: rest =>
-      mkwa (a_next s) (a_serial s) rest (a_dst s ++ f) (Some 0) (match k with Some c => Some c | None => a_chain s end) (a_flushing s) (a_waiters s)
+      mkwa (a_state s) (a_next s) (a_serial s) rest (a_dst s ++ f) (Some 0) (match k with Some c => Some c | None => a_chain s end) (a_flushing s) (a_waiters s)
         (a_rd s) (a_rwait s) (a_inq s) (a_src s) (a_wire s) (a_log s) (a_done s) (a_all s) (a_fstart s) (a_fdone s) (a_fuel_out s)
   end.
 
 Definition queue_frame (s : wa) (f : list Z) : wa :=
-  mkwa (a_next s) (a_serial s) (a_pending s ++ [f]) (a_dst s) (a_wr s) (a_chain s) (a_flushing s) (a_waiters s) (a_rd s) (a_rwait s) (a_inq s)
+  mkwa (a_state s) (a_next s) (a_serial s) (a_pending s ++ [f]) (a_dst s) (a_wr s) (a_chain s) (a_flushing s) (a_waiters s) (a_rd s) (a_rwait s) (a_inq s)
     (a_src s) (a_wire s) (a_log s) (a_done s) (a_all s ++ f) (a_fstart s) (a_fdone s) (a_fuel_out s).
 
 Definition set_fuel_out (s : wa) : wa :=
-  mkwa (a_next s) (a_serial s) (a_pending s) (a_dst s) (a_wr s) (a_chain s) (a_flushing s) (a_waiters s) (a_rd s) (a_rwait s) (a_inq s)
+  mkwa (a_state s) (a_next s) (a_serial s) (a_pending s) (a_dst s) (a_wr s) (a_chain s) (a_flushing s) (a_waiters s) (a_rd s) (a_rwait s) (a_inq s)
     (a_src s) (a_wire s) (a_log s) (a_done s) (a_all s) (a_fstart s) (a_fdone s) true.
 Definition set_src (s : wa) (l : list (Z * list Z)) : wa :=
-  mkwa (a_next s) (a_serial s) (a_pending s) (a_dst s) (a_wr s) (a_chain s) (a_flushing s) (a_waiters s) (a_rd s) (a_rwait s) (a_inq s)
+  mkwa (a_state s) (a_next s) (a_serial s) (a_pending s) (a_dst s) (a_wr s) (a_chain s) (a_flushing s) (a_waiters s) (a_rd s) (a_rwait s) (a_inq s)
     l (a_wire s) (a_log s) (a_done s) (a_all s) (a_fstart s) (a_fdone s) (a_fuel_out s).
 Definition set_rwait (s : wa) (b : bool) : wa :=
-  mkwa (a_next s) (a_serial s) (a_pending s) (a_dst s) (a_wr s) (a_chain s) (a_flushing s) (a_waiters s) (a_rd s) b (a_inq s)
+  mkwa (a_state s) (a_next s) (a_serial s) (a_pending s) (a_dst s) (a_wr s) (a_chain s) (a_flushing s) (a_waiters s) (a_rd s) b (a_inq s)
     (a_src s) (a_wire s) (a_log s) (a_done s) (a_all s) (a_fstart s) (a_fdone s) (a_fuel_out s).
 Definition set_rd (s : wa) (r : option Z) : wa :=
-  mkwa (a_next s) (a_serial s) (a_pending s) (a_dst s) (a_wr s) (a_chain s) (a_flushing s) (a_waiters s) r (a_rwait s) (a_inq s)
+  mkwa (a_state s) (a_next s) (a_serial s) (a_pending s) (a_dst s) (a_wr s) (a_chain s) (a_flushing s) (a_waiters s) r (a_rwait s) (a_inq s)
     (a_src s) (a_wire s) (a_log s) (a_done s) (a_all s) (a_fstart s) (a_fdone s) (a_fuel_out s).
 Definition add_fstart (s : wa) (k : contk) : wa :=
-  mkwa (a_next s) (a_serial s) (a_pending s) (a_dst s) (a_wr s) (a_chain s) (a_flushing s) (a_waiters s) (a_rd s) (a_rwait s) (a_inq s)
+  mkwa (a_state s) (a_next s) (a_serial s) (a_pending s) (a_dst s) (a_wr s) (a_chain s) (a_flushing s) (a_waiters s) (a_rd s) (a_rwait s) (a_inq s)
     (a_src s) (a_wire s) (a_log s) (a_done s) (a_all s) (a_fstart s ++ [k]) (a_fdone s) (a_fuel_out s).
 Definition add_fdone (s : wa) (k : contk) : wa :=
-  mkwa (a_next s) (a_serial s) (a_pending s) (a_dst s) (a_wr s) (a_chain s) (a_flushing s) (a_waiters s) (a_rd s) (a_rwait s) (a_inq s)
+  mkwa (a_state s) (a_next s) (a_serial s) (a_pending s) (a_dst s) (a_wr s) (a_chain s) (a_flushing s) (a_waiters s) (a_rd s) (a_rwait s) (a_inq s)
     (a_src s) (a_wire s) (a_log s) (a_done s) (a_all s) (a_fstart s) (a_fdone s ++ [k]) (a_fuel_out s).
 Definition add_waiter (s : wa) (k : contk) : wa :=
-  mkwa (a_next s) (a_serial s) (a_pending s) (a_dst s) (a_wr s) (a_chain s) (a_flushing s) (a_waiters s ++ [k]) (a_rd s) (a_rwait s) (a_inq s)
+  mkwa (a_state s) (a_next s) (a_serial s) (a_pending s) (a_dst s) (a_wr s) (a_chain s) (a_flushing s) (a_waiters s ++ [k]) (a_rd s) (a_rwait s) (a_inq s)
     (a_src s) (a_wire s) (a_log s) (a_done s) (a_all s) (a_fstart s) (a_fdone s) (a_fuel_out s).
 Definition set_flushing (s : wa) (b : bool) : wa :=
-  mkwa (a_next s) (a_serial s) (a_pending s) (a_dst s) (a_wr s) (a_chain s) b (a_waiters s) (a_rd s) (a_rwait s) (a_inq s)
+  mkwa (a_state s) (a_next s) (a_serial s) (a_pending s) (a_dst s) (a_wr s) (a_chain s) b (a_waiters s) (a_rd s) (a_rwait s) (a_inq s)
     (a_src s) (a_wire s) (a_log s) (a_done s) (a_all s) (a_fstart s) (a_fdone s) (a_fuel_out s).
 
 Fixpoint nlookup (k : Z) (l : list (Z * (Z * list Z))) : option (Z * list Z) :=
@@ -99,7 +100,9 @@ Fixpoint handle_read (fuel : nat) (s : wa) : wa :=          (* asyncNextFrame: d
       | [] => set_rwait s true
       | (opc, payload) :: rest =>
           let s1 := set_src s rest in
-          if opc =? 9 then flush f (queue_frame s1 (enc_frame 10 payload)) KRead      (* Ping: queue the Pong, read on *)
+          if opc =? 9 then
+            (* Ping: queue the Pong (only while the stream is active), read on *)
+            flush f (if a_state s1 =? 1 then queue_frame s1 (enc_frame 10 payload) else s1) KRead
           else match a_rd s1 with
                | Some rid => upd_log (set_rd s1 None) (rid, opc, payload)
                | None => s1
@@ -115,7 +118,10 @@ with run_cont (fuel : nat) (s : wa) (k : contk) : wa :=
       | KApp id =>
           let s1 := upd_log s (id, 0, []) in
           match nlookup id (a_next s1) with
-          | Some (id2, payload) => flush f (queue_frame s1 (enc_frame 2 payload)) (KApp id2)     (* the callback writes again *)
+          | Some (id2, payload) =>
+              (* the callback writes again; AsyncWrite on a stream that is no longer active is refused on the spot *)
+              if a_state s1 =? 1 then flush f (queue_frame s1 (enc_frame 2 payload)) (KApp id2)
+              else upd_log s1 (id2, -2, [])
           | None => s1
           end
       | KRead => handle_read f s
@@ -141,13 +147,13 @@ Fixpoint run_conts (fuel : nat) (s : wa) (ks : list contk) : wa :=
 
 (* the adapter's write handler ran and everything in dst is written: consume, continue the chain or complete it *)
 Definition write_complete (s : wa) : wa :=
-  let s1 := mkwa (a_next s) (a_serial s) (a_pending s) [] None (a_chain s) (a_flushing s) (a_waiters s) (a_rd s) (a_rwait s) (a_inq s)
+  let s1 := mkwa (a_state s) (a_next s) (a_serial s) (a_pending s) [] None (a_chain s) (a_flushing s) (a_waiters s) (a_rd s) (a_rwait s) (a_inq s)
               (a_src s) (a_wire s) (a_log s) (a_done s ++ a_dst s) (a_all s) (a_fstart s) (a_fdone s) (a_fuel_out s) in
   match a_pending s1 with
   | _ :: _ => send_head s1 None                       (* asyncFlushPending: the next frame *)
   | [] =>
       let ks := (match a_chain s1 with Some k => [k] | None => [] end) ++ a_waiters s1 in
-      let s2 := mkwa (a_next s1) (a_serial s1) (a_pending s1) (a_dst s1) (a_wr s1) None false [] (a_rd s1) (a_rwait s1) (a_inq s1)
+      let s2 := mkwa (a_state s1) (a_next s1) (a_serial s1) (a_pending s1) (a_dst s1) (a_wr s1) None false [] (a_rd s1) (a_rwait s1) (a_inq s1)
                   (a_src s1) (a_wire s1) (a_log s1) (a_done s1) (a_all s1) (a_fstart s1) (a_fdone s1) (a_fuel_out s1) in
       run_conts wa_fuel s2 ks
   end.
@@ -156,6 +162,7 @@ Inductive waop : Type :=
 | WaRead (rid : Z)
 | WaWrite (wid : Z) (payload : list Z)
 | WaPeer (opcode : Z) (payload : list Z)
+| WaClose (cid : Z)
 | WaChain (wid wid2 : Z) (payload2 : list Z)      (* handler program: the callback of write wid starts write wid2 *)
 | WaPoll (accept : Z).                    (* how many bytes the transport takes per write call in this poll *)
 
@@ -163,12 +170,21 @@ Definition wastep (s : wa) (o : waop) : wa :=
   match o with
   | WaRead rid =>
       flush wa_fuel (set_rd s (Some rid)) KRead
-  | WaWrite wid payload => flush wa_fuel (queue_frame s (enc_frame 2 payload)) (KApp wid)
+  | WaWrite wid payload =>
+      if a_state s =? 1 then flush wa_fuel (queue_frame s (enc_frame 2 payload)) (KApp wid)
+      else upd_log s (wid, -2, [])                                  (* ErrCancelled *)
+  | WaClose cid =>
+      (* AsyncClose: the state changes BEFORE the Close frame is queued and flushed *)
+      if a_state s =? 1 then
+        flush wa_fuel (queue_frame (mkwa 2 (a_next s) (a_serial s) (a_pending s) (a_dst s) (a_wr s) (a_chain s) (a_flushing s) (a_waiters s) (a_rd s)
+                                      (a_rwait s) (a_inq s) (a_src s) (a_wire s) (a_log s) (a_done s) (a_all s) (a_fstart s) (a_fdone s) (a_fuel_out s))
+                         (enc_frame 8 [3; 232])) (KApp cid)
+      else upd_log s (cid, -2, [])
   | WaPeer opc payload =>
-      mkwa (a_next s) (a_serial s) (a_pending s) (a_dst s) (a_wr s) (a_chain s) (a_flushing s) (a_waiters s) (a_rd s) (a_rwait s) (a_inq s ++ [(opc, payload)])
+      mkwa (a_state s) (a_next s) (a_serial s) (a_pending s) (a_dst s) (a_wr s) (a_chain s) (a_flushing s) (a_waiters s) (a_rd s) (a_rwait s) (a_inq s ++ [(opc, payload)])
         (a_src s) (a_wire s) (a_log s) (a_done s) (a_all s) (a_fstart s) (a_fdone s) (a_fuel_out s)
   | WaChain wid wid2 payload2 =>
-      mkwa ((wid, (wid2, payload2)) :: a_next s) (a_serial s) (a_pending s) (a_dst s) (a_wr s) (a_chain s) (a_flushing s) (a_waiters s) (a_rd s) (a_rwait s)
+      mkwa (a_state s) ((wid, (wid2, payload2)) :: a_next s) (a_serial s) (a_pending s) (a_dst s) (a_wr s) (a_chain s) (a_flushing s) (a_waiters s) (a_rd s) (a_rwait s)
         (a_inq s) (a_src s) (a_wire s) (a_log s) (a_done s) (a_all s) (a_fstart s) (a_fdone s) (a_fuel_out s)
   | WaPoll accept =>
       let had_write := match a_wr s with Some _ => true | None => false end in
@@ -176,14 +192,14 @@ Definition wastep (s : wa) (o : waop) : wa :=
       let s1 :=
         if a_rwait s && negb (match a_inq s with [] => true | _ => false end) then
           handle_read wa_fuel
-            (mkwa (a_next s) (a_serial s) (a_pending s) (a_dst s) (a_wr s) (a_chain s) (a_flushing s) (a_waiters s) (a_rd s) false []
+            (mkwa (a_state s) (a_next s) (a_serial s) (a_pending s) (a_dst s) (a_wr s) (a_chain s) (a_flushing s) (a_waiters s) (a_rd s) false []
                (a_src s ++ a_inq s) (a_wire s) (a_log s) (a_done s) (a_all s) (a_fstart s) (a_fdone s) (a_fuel_out s))
         else s in
       (* write side: only if the write interest existed when the poll began *)
       match had_write, a_wr s1 with
       | true, Some sofar =>
           let n := Z.max 0 (Z.min accept (zlen (a_dst s1) - sofar)) in
-          let s2 := mkwa (a_next s1) (a_serial s1) (a_pending s1) (a_dst s1) (Some (sofar + n)) (a_chain s1) (a_flushing s1) (a_waiters s1) (a_rd s1) (a_rwait s1)
+          let s2 := mkwa (a_state s1) (a_next s1) (a_serial s1) (a_pending s1) (a_dst s1) (Some (sofar + n)) (a_chain s1) (a_flushing s1) (a_waiters s1) (a_rd s1) (a_rwait s1)
                       (a_inq s1) (a_src s1) (a_wire s1 ++ zsub sofar (sofar + n) (a_dst s1)) (a_log s1) (a_done s1) (a_all s1) (a_fstart s1)
                       (a_fdone s1) (a_fuel_out s1) in
           if sofar + n =? zlen (a_dst s1) then write_complete s2 else s2
